@@ -129,7 +129,7 @@ def validate_events(events, tag):
     return found
 
 
-RULE_PROP = {"cow": "C17", "ht-after-meta": "C17", "prune-after-meta": "C17", "wal-before-meta": "C04",
+RULE_PROP = {"cow": "C17", "list-rewritten": "C17", "ht-after-meta": "C17", "prune-after-meta": "C17", "wal-before-meta": "C04",
              "cow-before-meta": "C04", "seg-before-meta": "C04", "trunc-after-htsync": "C04",
              "recover-metasync": "C04", "recover-htsync": "C04"}
 
@@ -275,6 +275,27 @@ def freelist_sweep_scripts(pid, rng, first_run, n):
         pages = max(head - left - 3, 1)   # overflow pages of the filler value (the leaf rewrite takes a page or two)
         run += 1
         out.append(script(run, beh_for(True), pages * 4096 - 64))
+    # empty-and-refill: everything is erased (the trees are empty, the free lists are not), a few keys come back in a
+    # commit that takes pages from the free lists and releases none, and the store is reopened before the next commits
+    # (what is on disk, not what is in memory, decides which pages those may write)
+    for vt, f in (("tiny", 1), ("ovf", 1), ("tiny", 25), ("mixed", 60), ("big", 3), ("tiny", 200))[: max(2, min(6, n // 2))]:
+        beh = []
+        def commit(w):
+            beh.extend([dict(a="Begin", s=1, chain=[], res="Ok"), dict(a="Finish", s=1, f=1, w=dict(NCH, **w)), dict(a="Commit", f=1, res="Ok")])
+        commit({keys[0]: "v1", keys[1]: "v1", keys[2]: "v2"})
+        commit({keys[0]: "Nil", keys[1]: "Nil", keys[2]: "Nil"})
+        commit({keys[0]: "v2"})
+        beh += [dict(a="Close"), dict(a="Reopen")]
+        commit({keys[1]: "v2"})
+        commit({keys[0]: "Nil"})
+        commit({keys[2]: "v1", keys[1]: "Nil"})
+        beh += [dict(a="Close"), dict(a="Reopen")]
+        commit({keys[2]: "Nil"})
+        commit({keys[1]: "v1"})
+        run += 1
+        store = dict(hashtable_buckets=4096, rollback=True, max_rollback_log_len=2, seed=rng.randrange(1 << 30), segment_size=0)
+        conc = dict(keys=keys, vals=sorted(consts["Vals"]), emb="top", f=f, vtable=api.VTABLES[vt], seed=rng.randrange(1 << 30), probes=1)
+        out.append(api.make_script(run, beh, store, conc))
     return out, consts
 
 
